@@ -195,6 +195,16 @@ func (v *VerifQueue) HeapIDs() []int {
 	return ids
 }
 
+// HeapArray returns the heap array in array order: id, index field and deadline of every node.
+func (v *VerifQueue) HeapArray() (ids, index []int, deadline []int64) {
+	for _, n := range v.Q.timers {
+		ids = append(ids, n.id)
+		index = append(index, n.index)
+		deadline = append(deadline, n.deadline)
+	}
+	return ids, index, deadline
+}
+
 // ---------------------------------------------------------------------------------------------
 // schedule points inside an expiry pass
 
